@@ -30,6 +30,7 @@ type HarnessRun struct {
 	Solver   string
 	Stubs    map[string]string
 	Redirect map[string]string // callee -> harness function executed instead
+	Race          bool          // replay under the race detector; a reported data race confirms the violation
 	NativePatches []NativePatch // source patches applied by overlay for the native replay only
 	Entry    string
 	Params   map[string]int
@@ -127,6 +128,7 @@ type replayTape struct {
 	Runs     int            `json:"runs,omitempty"`
 	APIs     []string       `json:"apis,omitempty"`
 	Patches  []NativePatch  `json:"patches,omitempty"`
+	Race     bool           `json:"race,omitempty"`
 }
 
 type replayOutcome struct {
@@ -216,7 +218,11 @@ func nativeReplay(repo string, tape *replayTape, tapePath string) replayOutcome 
 	if runs <= 0 {
 		runs = 1
 	}
-	args := []string{"test", "-vet=off", "-count=" + strconv.Itoa(runs), "-run", "^TestVerifReplay$", "-v", "-overlay", ovPath, "./" + tape.Pkg}
+	args := []string{"test", "-vet=off", "-count=" + strconv.Itoa(runs), "-run", "^TestVerifReplay$", "-v", "-overlay", ovPath}
+	if tape.Race {
+		args = append(args, "-race")
+	}
+	args = append(args, "./"+tape.Pkg)
 	cmd := exec.Command("timeout", append([]string{"600", "go"}, args...)...)
 	cmd.Dir = repo
 	cmd.Env = append(os.Environ(), "GOFLAGS=-mod=mod", "GOPROXY=off", "GOSUMDB=off", "GOTOOLCHAIN=local",
@@ -233,6 +239,16 @@ func nativeReplay(repo string, tape *replayTape, tapePath string) replayOutcome 
 			}
 			outcomes = append(outcomes, o)
 		}
+	}
+	if tape.Race && strings.Contains(raw, "WARNING: DATA RACE") {
+		detail := ""
+		if i := strings.Index(raw, "WARNING: DATA RACE"); i >= 0 {
+			detail = raw[i:]
+			if len(detail) > 600 {
+				detail = detail[:600]
+			}
+		}
+		return replayOutcome{Outcome: "race", Detail: strings.ReplaceAll(detail, "\n", " | "), Raw: raw}
 	}
 	if len(outcomes) == 0 {
 		if len(raw) > 2000 {
@@ -396,7 +412,7 @@ func cmdCheck(args []string) int {
 				continue
 			}
 			tape := &replayTape{Property: id, Harness: rr.run.Entry, Pkg: rr.run.Pkg, PkgName: rr.run.PkgName, Files: append(append([]string{}, rr.run.Files...), rr.run.NatFiles...),
-				Params: rr.run.Params, Draws: v.Draws, Expect: v.Label, Kind: v.Kind, Msg: v.Msg, Runs: rr.run.ReplayRuns, APIs: rr.run.APIs, Patches: rr.run.NativePatches}
+				Params: rr.run.Params, Draws: v.Draws, Expect: v.Label, Kind: v.Kind, Msg: v.Msg, Runs: rr.run.ReplayRuns, APIs: rr.run.APIs, Patches: rr.run.NativePatches, Race: rr.run.Race}
 			name := fmt.Sprintf("%s-%s-%s.json", id, rr.run.Name, sanitize(v.Label))
 			tapePath := filepath.Join(verifRoot(), "replays", name)
 			data, _ := json.MarshalIndent(tape, "", " ")
@@ -416,7 +432,7 @@ func cmdCheck(args []string) int {
 			}
 			o := nativeReplay(repo, tape, tapePath)
 			replayed++
-			reproduced := (v.Kind == "assert" && o.Outcome == "assert" && o.Detail == v.Label) || (v.Kind == "panic" && o.Outcome == "panic")
+			reproduced := (v.Kind == "assert" && o.Outcome == "assert" && o.Detail == v.Label) || (v.Kind == "panic" && o.Outcome == "panic") || (rr.run.Race && o.Outcome == "race")
 			if !reproduced {
 				inconclusive = append(inconclusive, fmt.Sprintf("%s: model for %s did not reproduce natively (native outcome: %s %s) — encoding or stub imprecision, not reported as a violation; tape %s", rr.run.Name, v.Label, o.Outcome, o.Detail, tapePath))
 				if os.Getenv("GOSYM_DEBUG") != "" {
